@@ -772,6 +772,11 @@ class Interp:
                 from .tarr import square_axiom
                 ctx.assume(square_axiom(h[1]), "definition of the squares array")
                 continue
+            if h[0] == "instance":     # (.., lemma, outer args): H -> forall rest. C of a lemma PROVED on this run: a valid formula
+                if h[1].assumed:
+                    raise Untranslatable("an assumed lemma cannot be used as an unconditional instance")
+                ctx.assume(h[1].closed_instance(*h[2]), "lemma instance " + h[1].name)
+                continue
             lem, largs = h
             ctx.oblige(f"{key[0]}#loop{key[1]}:{lem.name}", "lemma-pre", lem.hyps(*largs), {})
             ctx.assume(lem.stmt(*largs, lem.upto(*largs)), "lemma instance " + lem.name)
